@@ -67,6 +67,7 @@ ADVISORY = {
     'C09.R2': 'fold keys as text -> calibration simulation C09.R11 (moving average, exact)',
     'C15.R1': 'group scan spelling -> sharing simulation C15.R8, tied constants C15.R10',
     'C01.R9': 'same as C15.R1',
+    'C01.R2': 'position of the validity check as text -> C01.R16 pipeline (types and parameters go together), C15.R8',
 }
 
 
@@ -79,8 +80,8 @@ ADVISORY_OBLIGATIONS = {
     'C01.R3': ['the inserted operator must read exactly', 'the new tensor must copy the shape', 'the operator must be inserted into the instruction'],
     'C01.R6': ['`'],
     'C02.R2': ['*'],
-    'C02.R3': ['subgraph.outputs is rewired although', 'only the output entry equal to the source tensor', 'graph outputs must be copied before the transformation'],
-    'C03.R3': ['cannot find the unknown-op', 'inputs must be filed as consumers', 'no-quant params must cover', 'the unknown-op-code and the NO_QUANTIZE branch', 'the only operand skipped by the no-quant path'],
+    'C02.R3': ['subgraph.outputs is rewired although', 'only the output entry equal to the source tensor', 'graph outputs must be copied before the transformation', 'the output must be redirected to the new tensor'],
+    'C03.R3': ['cannot find the unknown-op', 'inputs must be filed as consumers', 'no-quant params must cover', 'the unknown-op-code and the NO_QUANTIZE branch', 'the only operand skipped by the no-quant path', 'no-quant params no longer carry [NO_QUANTIZE]'],
     'C03.R6c': ['bias is treated as a constant under', 'bias params must be built with'],
     'C03.R9': ['*'],
     'C04.R2c': ['*'],
@@ -107,16 +108,16 @@ ADVISORY_OBLIGATIONS = {
     'C05.R7': ['*'],
     'C17.R9': ['scale and zero point must both be expanded', 'the axes to expand are no longer'],
     'C05.R6': ['scale and zero point must both be expanded', 'the axes to expand are no longer'],
-    'C08.R5': ['the producer rule is kept although all its consumers were taken over'],
+    'C08.R5': ['the producer rule is kept although all its consumers were taken over', 'the last producer rule must be popped from the producer list'],
     'C15.R4': ['ADD_DEQUANTIZE quantizes the tensor but', 'NO_QUANTIZE must count as unquantized', 'QUANTIZE_TENSOR quantizes the tensor but'],
     'C15.R5': ['producer pair, both consumer lists internally'],
     'C16.R3': ['*'],
-    'C16.R4': ['the total constant size must be accumulated'],
+    'C16.R4': ['the total constant size must be accumulated', 'the constant of a buffer must be looked up with the enumerating index'],
     'C16.R5': ['sizes above the threshold must take the large-model path'],
     'C18.R2': ['*'],
     'C18.R6': ['dequantization must apply exactly to quantized tensors'],
     'C18.R7': ['*'],
-    'C19.R1': ['tensor id and producer of an instruction must come from'],
+    'C19.R1': ['tensor id and producer of an instruction must come from', 'the instructions of a tensor must carry the subgraph id recorded'],
     # no advisory obligation, but "cannot recognise the function" (an AnalysisError / a lost subject of these rules) is a note
     'C17.R8': [], 'C04.R4b': [], 'C18.R1': [], 'C18.R3': [], 'C09.R4': [],
     # third set of refactorings (r16: C04, C09, C13, C15 files)
@@ -126,6 +127,8 @@ ADVISORY_OBLIGATIONS = {
     'C09.R2': ['the min statistic is not updated', 'the max statistic is not updated'],
     'C15.R1': ['the predicate must compare the recorded results of the first sharer', 'only groups with a single entry may be skipped'],
     'C01.R9': ['the predicate must compare the recorded results of the first sharer', 'only groups with a single entry may be skipped'],
+    # fourth set (r17: C02, C08, C11, C14 files)
+    'C01.R2': ['the check runs before the final instruction list is attached'],
 }
 
 
